@@ -179,12 +179,17 @@ class Flow(object):
             cur = facts
             for i, v in enumerate(e.values):
                 self.walk_expr(v, defined, cur, cfgnode, st)
-                cur = add_facts(cur, refine(v, isinstance(e.op, ast.And)))
+                ref = refine(v, isinstance(e.op, ast.And))
+                if contradicts(cur, ref):
+                    return      # the remaining operands are not evaluated in this state (short-circuit)
+                cur = add_facts(cur, ref)
             return
         if isinstance(e, ast.IfExp):
             self.walk_expr(e.test, defined, facts, cfgnode, st)
-            self.walk_expr(e.body, defined, add_facts(facts, refine(e.test, True)), cfgnode, st)
-            self.walk_expr(e.orelse, defined, add_facts(facts, refine(e.test, False)), cfgnode, st)
+            if not contradicts(facts, refine(e.test, True)):
+                self.walk_expr(e.body, defined, add_facts(facts, refine(e.test, True)), cfgnode, st)
+            if not contradicts(facts, refine(e.test, False)):
+                self.walk_expr(e.orelse, defined, add_facts(facts, refine(e.test, False)), cfgnode, st)
             return
         if isinstance(e, (ast.ListComp, ast.SetComp, ast.GeneratorExp, ast.DictComp)):
             bound = set()
